@@ -3,7 +3,7 @@ import json, os, time, concurrent.futures
 from common import *
 import tlcout
 
-FIRE = ["F_hcomm", "F_hidem", "F_gg", "F_hf", "F_lamh", "F_glam", "F_hag", "F_fswap", "F_hfp", "F_hfv", "F_hfpb", "F_hav", "F_haf"]
+FIRE = ["F_hcomm", "F_hidem", "F_gg", "F_hf", "F_lamh", "F_glam", "F_hag", "F_fswap", "F_hfp", "F_hfv", "F_hfpb", "F_hav", "F_haf", "F_hidem4"]
 
 
 def fire_table(name, maxeqs, tag):
